@@ -117,6 +117,16 @@ CLAIMED["C20"] = dict(
    text="1-3 channels of packets (seq, payload=g(channel, seq)) published over simulated multicast with loss, duplication, reordering and delay; a retransmission actor fills gaps later; the receiver parks every out-of-order packet in a ByteBuffer save area indexed by a SlotSequencer (1 in 4 runs: bare SlotOffsetter), pops and discards when the gap closes, and expires tape-chosen parked packets in any order; slot and byte capacities are drawn small, and a long-lived gap keeps one sequencer non-empty while others drain repeatedly. "
         "Oracle after every call: Pop succeeds iff parked; the returned slot addresses exactly the bytes saved under that number before its Discard; afterwards Saved() is the concatenation of the remaining parked packets in save order; duplicates return (false, nil) and change nothing; capacity overruns return an error and change nothing; Bytes()/Size() equal the model; the application receives every sequence number once, in order, intact.",
    note="A Push refused with ErrNoSpaceLeftForSlot below the byte capacity is tolerated only when the bytes pushed since the sequencer was last empty reach maxBytes (the offsetter's index space), and counted by a probe.")
+CLAIMED["C10"] = dict(
+   technique="deterministic simulation of a packet-receive pipeline (asynchronous datagram reads into claims, timer-driven consumer) with a chunk-queue model and address-range checks",
+   text="A receiver claims space in a BipBuffer (sizes 1..4096 drawn per run), starts an asynchronous datagram read into the claim on a simulated UDP socket and commits the received (usually shorter) length in the completion callback; a consumer driven by a repeating timer on the same IO takes Head(), verifies and consumes whole chunks, parts of chunks or more than the head holds, sometimes stalled; bursts, loss, reordering, small socket queues, abandoned claims (Commit(0)) and Reset. "
+        "Because completion is asynchronous, claim -> consumer runs (possibly emptying the buffer) -> commit is an ordinary schedule. Oracle after every call: Head() is a whole number of chunks from the front of the queue in commit order, byte-identical; Committed() equals committed minus consumed; the address range of every claim is disjoint from every unconsumed committed byte (pointer arithmetic on the backing array, plus poisoning each claim and re-verifying all queued chunks, including those in the wrapped region, through their recorded addresses); an empty buffer grants min(n, Size()).",
+   note="Reset is only issued while no claim is outstanding. Consume(n) is modelled as consuming min(n, len(Head())) bytes, which is what the documented behaviour (the first contiguous region) implies.")
+CLAIMED["C11"] = dict(
+   technique="deterministic simulation of a stream receiver (segmented TCP stream read into claims of a real mirrored mapping) with a ring model; constructor fault enumeration on the real kernel",
+   text="A stream of position-dependent bytes arrives over simulated TCP with arbitrary segmentation and small receive windows; the receiver claims free space in a REAL MirroredBuffer (sizes: 1, 4095, 4096, 4097 bytes, 2, 3, 5, 8 and 32 pages; prefault on/off), reads asynchronously into the claim, commits, and consumes tape-chosen amounts (also above the used space; claims and commits above the free space; Reset). "
+        "Oracle: ring model of capacity Size(): each claim starts at offset (head+used) mod Size() of the mapping and has length min(n, free); used+free=size; every queued byte read through the first mapping equals the stream byte at that position after every commit and consume; bytes written through a claim that crosses the end appear at the start of the ring; after Destroy the process has no mapping, descriptor or backing file of the buffer left. Directed: every size once; plus the enumeration of failing CreateTemp/Truncate/mmap calls (fault enumeration, shared with C13).",
+   note="mmap/munmap, /proc/self/maps and /proc/self/fd are the real kernel's (the MMU aliasing is the property): deterministic, but not simulated; the simulator supplies the stream, the schedule and the injected failures.")
 
 NOT_YET = {
 }
